@@ -152,7 +152,9 @@ def body(ctx, n, positive, with_bounds, dimcoord, data_pos, pd, d2s, depth_mode,
               'a warning is emitted exactly when the positive attribute is missing')
 
     # physical depth below the surface of original level i
-    phys = [d[i] if down0 else -d[i] for i in range(n)]
+    # (integer-typed coordinates: the reference negates mathematical integers, not values of the narrow type)
+    dm = [int(x) if isinstance(x, numpy.integer) else x for x in (d[i] for i in range(n))]
+    phys = [dm[i] if down0 else -dm[i] for i in range(n)]
     down1 = down0 if pd is None else pd
     # expected order: reversal iff an order is requested and differs from the current one
     old_d2s = phys[0] > phys[1]
@@ -320,6 +322,25 @@ def cases(tier):
                        dict(n=len(vals), positive=positive, with_bounds=True, dimcoord=(dt == 'int16'), data_pos=1,
                             pd=pd, d2s=d2s, depth_mode=(dt, vals), via='function'),
                        patches=depthcommon.patches, max_paths=50)
+    # unsigned and narrow signed depth coordinates whose steps do not fit the type (200 -> 100 in uint16 wraps when
+    # subtracted; 20000 -> -20000 does not fit int16); no change of sign is asked of the unsigned ones
+    for dt, vals, positive, optset in (('uint16', (200, 100, 50, 0), 'down', ((True, True), (True, False), (None, True), (None, False), (True, None))),
+                                       ('uint8', (0, 50, 100, 200), 'down', ((True, True), (True, False), (None, True), (None, False))),
+                                       ('int16', (20000, -20000), 'up', ((True, True), (False, False), (None, True), (False, True), (True, False))),
+                                       ('int16', (-20000, 20000), 'down', ((True, True), (False, False), (None, False)))):
+        for (pd, d2s) in optset:
+            yield Case(f'intdepth:{dt}:{vals[0]}:{positive}:pd{pd}:d2s{d2s}:wide-steps', body,
+                       dict(n=len(vals), positive=positive, with_bounds=False, dimcoord=(dt == 'uint8'), data_pos=1,
+                            pd=pd, d2s=d2s, depth_mode=(dt, vals), via='function'),
+                       patches=depthcommon.patches, max_paths=50)
+    # integer depths whose negation does not fit their type (the most negative value of a signed type; any unsigned
+    # value) and that are asked to change sign: a recorded finding (known_findings.json)
+    for dt, vals, positive, (pd, d2s) in (('int8', (-128, -50, 0), 'up', (True, None)), ('int16', (-32768, -100), 'up', (True, False)),
+                                          ('uint16', (0, 50, 100, 120), 'down', (False, None))):
+        yield Case(f'intdepth:{dt}:{vals[0]}:{positive}:pd{pd}:d2s{d2s}:negation-does-not-fit', body,
+                   dict(n=len(vals), positive=positive, with_bounds=False, dimcoord=False, data_pos=1,
+                        pd=pd, d2s=d2s, depth_mode=(dt, vals), via='function'),
+                   patches=depthcommon.patches, max_paths=50)
     # many levels: a slim majority decides the guessed sign (6 of 11, 51 of 100); more than 128 layers are reordered whole
     slim = tuple([-5.0, -4.0, -3.0, -2.0, -1.0] + [1.0, 2.0, 3.0, 4.0, 5.0, 6.0])
     for vals in (slim, tuple(-float(v) for v in slim), tuple(float(v) for v in range(-49, 52) if v != 0)):
